@@ -62,6 +62,29 @@ CONSTANTS KeyRegime, CheckSrcHost, MaxDatagrams
 ASSUME KeyRegime \in {"mock", "drkey"} /\ CheckSrcHost \in BOOLEAN /\ MaxDatagrams \in 1 .. 4
 
 (***************************************************************************)
+(* Time and key epochs.  Time is a sequence of instants 0, 1, 2, ... (the  *)
+(* nanoseconds of drkey.Epoch / cppki.Validity, whose Contains is          *)
+(* inclusive at both ends).  Epoch e of every DRKey consists of the        *)
+(* instants e * EpochLen .. (e + 1) * EpochLen - 1: its first instant is   *)
+(* its NotBefore ("exactly at the boundary"), its last one its NotAfter    *)
+(* ("just before the next boundary").  A host-AS key, and with it every    *)
+(* host-to-host key, is a function of its epoch as well: the key that      *)
+(* authenticates a datagram is the one of the epoch that contains the      *)
+(* instant the datagram refers to -- for the listener the receive time     *)
+(* (server_scion.go: Validity = rxt).  The DRKey service answers a request *)
+(* for instant t with the key of the epoch that contains t.                *)
+(* fetcher.go hands out its cached host-AS key only for instants inside    *)
+(* that key's epoch (hak.Epoch.Contains(meta.Validity)).  Grace > 0 is a   *)
+(* deliberately wrong variant (ScionAuth_f_keygrace.cfg): the cached key   *)
+(* stays in use for Grace instants after its epoch.                        *)
+(***************************************************************************)
+CONSTANTS EpochLen, MaxClock, Grace
+ASSUME EpochLen \in 1 .. 4 /\ MaxClock \in 0 .. 16 /\ Grace \in 0 .. 16
+EpochOf(t) == t \div EpochLen
+PosOf(t)   == t % EpochLen                         \* 0 = NotBefore, EpochLen - 1 = NotAfter
+EpochContains(e, t) == e * EpochLen <= t /\ t <= (e + 1) * EpochLen - 1
+
+(***************************************************************************)
 (* Deliberately wrong variants of the implementation, used by the          *)
 (* ScionAuth_f_*.cfg configurations to show that the property section      *)
 (* rejects them ("none" is the code as it is).                             *)
@@ -114,12 +137,13 @@ NoAuth  == [present |-> FALSE, spi |-> "-", algo |-> "-", ts |-> 0, rsv |-> 0,
             mac |-> [key |-> <<"-">>, over |-> << >>]]
 
 \* host-to-host keys (tuples, so that keys of both regimes compare)
-HHKey(srvIA, cliIA, srvHost, cliHost) ==
-  IF KeyRegime = "mock" THEN <<"k0">> ELSE <<srvIA, cliIA, srvHost, cliHost>>
+HHKey(srvIA, cliIA, srvHost, cliHost, ep) ==
+  IF KeyRegime = "mock" THEN <<"k0">> ELSE <<srvIA, cliIA, srvHost, cliHost, ep>>
 \* the key a datagram has to be authenticated with: a request travels client ->
-\* server (source = client), a response server -> client
-ReqKey(d)  == HHKey(d.dia, d.sia, d.dh, d.sh)
-RespKey(d) == HHKey(d.sia, d.dia, d.sh, d.dh)
+\* server (source = client), a response server -> client; in both cases the key
+\* of the epoch that contains the instant d.at the exchange takes place at
+ReqKey(d)  == HHKey(d.dia, d.sia, d.dh, d.sh, EpochOf(d.at))
+RespKey(d) == HHKey(d.sia, d.dia, d.sh, d.dh, EpochOf(d.at))
 OtherOf(x) == CASE x = "S" -> "D" [] x = "D" -> "S" [] x = "C" -> "C2" [] x = "C2" -> "C"
                 [] x = "iaC" -> "iaC2" [] x = "iaC2" -> "iaC" [] OTHER -> x
 
@@ -166,7 +190,9 @@ AuthKinds == {"absent", "valid",
               "wrongKey",    \* MAC computed with a key that is nobody's
               "keyOtherSrv", \* MAC computed with the key of (another server host, this client)
               "keyOtherCli", \* ... of (this server host, another client host)
-              "keyOtherIA"}  \* ... of (this server, this client host in another ISD-AS)
+              "keyOtherIA",  \* ... of (this server, this client host in another ISD-AS)
+              "keyPrevEpoch",\* ... of this pair, of the epoch before the one the datagram arrives in
+              "keyNextEpoch"}\* ... of this pair, of the epoch after it
 
 Tamper(d, k) ==
   CASE k = "valid"     -> d
@@ -185,9 +211,11 @@ MkAuth(d, k, spi, other) ==
   CASE k = "absent"   -> d
     [] k = "spiOther" -> WithAuth(d, other, ReqKey(d))
     [] k = "wrongKey" -> WithAuth(d, spi, <<"kx">>)
-    [] k = "keyOtherSrv" -> WithAuth(d, spi, HHKey(d.dia, d.sia, OtherOf(d.dh), d.sh))
-    [] k = "keyOtherCli" -> WithAuth(d, spi, HHKey(d.dia, d.sia, d.dh, OtherOf(d.sh)))
-    [] k = "keyOtherIA"  -> WithAuth(d, spi, HHKey(d.dia, OtherOf(d.sia), d.dh, d.sh))
+    [] k = "keyOtherSrv" -> WithAuth(d, spi, HHKey(d.dia, d.sia, OtherOf(d.dh), d.sh, EpochOf(d.at)))
+    [] k = "keyOtherCli" -> WithAuth(d, spi, HHKey(d.dia, d.sia, d.dh, OtherOf(d.sh), EpochOf(d.at)))
+    [] k = "keyOtherIA"  -> WithAuth(d, spi, HHKey(d.dia, OtherOf(d.sia), d.dh, d.sh, EpochOf(d.at)))
+    [] k = "keyPrevEpoch" -> WithAuth(d, spi, HHKey(d.dia, d.sia, d.dh, d.sh, EpochOf(d.at) - 1))
+    [] k = "keyNextEpoch" -> WithAuth(d, spi, HHKey(d.dia, d.sia, d.dh, d.sh, EpochOf(d.at) + 1))
     [] OTHER          -> Tamper(WithAuth(d, spi, ReqKey(d)), k)
 
 ExpectedReq(d)  == d.auth.present /\ d.auth.spi = "client" /\ d.auth.algo = "cmac"
@@ -226,23 +254,26 @@ VARIABLES
   cache,    \* fetcher.go: Fetcher.haks, the cached host-AS key per client ISD-AS
   kinfo,    \* this datagram: was the cache asked, was its entry expired, was a key fetched, the key used
   nsent,    \* datagrams handled so far by this listener (same goroutine, same fetcher)
-  hist      \* what happened to them (observation, for the case generator)
+  hist,     \* what happened to them (observation, for the case generator)
+  clock     \* the present instant
 
-kvars == <<cache, kinfo, nsent, hist>>
-vars == <<mode, cauth, pc, req, authd, act, out, rm, resp, cres, cache, kinfo, nsent, hist>>
+kvars == <<cache, kinfo, nsent, hist, clock>>
+vars == <<mode, cauth, pc, req, authd, act, out, rm, resp, cres, cache, kinfo, nsent, hist, clock>>
 
 CONSTANTS Modes, ULs, L4s, DPorts, DHosts, Fams, PathSet, Pls, ReqAuths, RespMuts, CIAs, CHosts,
           PathExts, RespExts   \* <<path, extension chain>> pairs of requests; chains the network gives a response
 
 LocalHostPort == IF mode = "server" THEN "srv" ELSE "eh"
 Fetcher       == mode = "server"
-NoEntry == [valid |-> FALSE, expired |-> FALSE, srvIA |-> "-", cliIA |-> "-", srvHost |-> "-"]
-NoKInfo == [asked |-> FALSE, exp |-> FALSE, fetch |-> FALSE, key |-> <<"-">>]
+\* a cached host-AS key: the metadata it was fetched for and its epoch
+NoEntry == [valid |-> FALSE, ep |-> 0, srvIA |-> "-", cliIA |-> "-", srvHost |-> "-"]
+NoKInfo == [asked |-> FALSE, exp |-> FALSE, fetch |-> FALSE, key |-> <<"-">>, cst |-> "-"]
 AllCIAs == {"iaC", "iaC2"}
 
 Blank == [ul |-> "srv", l4 |-> "udp", sia |-> "iaC", dia |-> "iaS", sh |-> "C", dh |-> "S", sfam |-> 4, dfam |-> 4,
           sp |-> "cp", dp |-> "srv", path |-> EmptyPath, ptype |-> "empty", pl |-> "ntp",
           hdr |-> "h0", ptok |-> "p0", mut |-> "m0", auth |-> NoAuth,
+          at |-> 0,           \* the instant it arrives at the listener (not a field of the datagram)
           ext |-> "e2e",      \* extension header chain, see Exts
           ak |-> "absent", pl0 |-> "ntp"]  \* bookkeeping only: what was done to the authenticator, payload as built
 
@@ -251,6 +282,7 @@ Init ==
   /\ pc = "l4" /\ req = Blank /\ authd = FALSE /\ act = "-" /\ out = << >>
   /\ rm = "-" /\ resp = Blank /\ cres = "-"
   /\ cache = [ia \in AllCIAs |-> NoEntry] /\ kinfo = NoKInfo /\ nsent = 0 /\ hist = << >>
+  /\ clock = 0
 
 \* ------------------------------------------------------------ the requester
 ChooseL4 ==
@@ -292,7 +324,7 @@ ChooseAuth ==
   /\ \E k \in ReqAuths :
        /\ ~cauth => k = "absent"
        /\ req.l4 # "udp" => k = "absent"
-       /\ req' = [MkAuth(req, k, "client", "server") EXCEPT !.ak = k]
+       /\ req' = [MkAuth([req EXCEPT !.at = clock], k, "client", "server") EXCEPT !.ak = k]
   /\ pc' = "sent"
   /\ UNCHANGED kvars /\ UNCHANGED <<mode, cauth, authd, act, out, rm, resp, cres>>
 
@@ -357,20 +389,30 @@ Receive ==
 \* missing, expired or was fetched for other metadata --, derive the host-to-host
 \* key for the source host, compute the MAC, compare, drop on mismatch.
 \* Anything else is served unauthenticated.
+\* fetcher.go: expired := ok && !hak.Epoch.Contains(meta.Validity), meta.Validity = the
+\* datagram's receive time (Grace = 0: the code as it is)
+Expired(e, t) == e.valid /\ ~(e.ep * EpochLen <= t /\ t <= (e.ep + 1) * EpochLen - 1 + Grace)
 Refetch(d) ==
   LET e == cache[d.sia]
-  IN ~e.valid \/ e.expired \/ e.srvIA # d.dia \/ e.cliIA # d.sia \/ (CheckSrcHost /\ e.srvHost # d.dh)
+  IN ~e.valid \/ Expired(e, d.at) \/ e.srvIA # d.dia \/ e.cliIA # d.sia \/ (CheckSrcHost /\ e.srvHost # d.dh)
+\* the DRKey service answers with the key of the epoch that contains the instant asked for
 EntryFor(d) == IF Refetch(d)
-               THEN [valid |-> TRUE, expired |-> FALSE, srvIA |-> d.dia, cliIA |-> d.sia, srvHost |-> d.dh]
+               THEN [valid |-> TRUE, ep |-> EpochOf(d.at), srvIA |-> d.dia, cliIA |-> d.sia, srvHost |-> d.dh]
                ELSE cache[d.sia]
-SrvKey(d) == LET e == EntryFor(d) IN HHKey(e.srvIA, e.cliIA, e.srvHost, d.sh)
+SrvKey(d) == LET e == EntryFor(d) IN HHKey(e.srvIA, e.cliIA, e.srvHost, d.sh, e.ep)
+\* the cache as this datagram met it, as a class
+CacheClass(d) == LET e == cache[d.sia]
+                 IN IF ~e.valid THEN "cold"
+                    ELSE IF e.srvIA # d.dia \/ e.cliIA # d.sia \/ e.srvHost # d.dh THEN "otherMeta"
+                    ELSE IF e.ep = EpochOf(d.at) THEN "sameEpoch"
+                    ELSE IF e.ep = EpochOf(d.at) - 1 THEN "prevEpoch" ELSE "olderEpoch"
 Verify ==
   /\ pc = "verify"
   /\ IF Fetcher /\ AuthFound(req) /\ ExpectedReq(req)
      THEN /\ cache' = [cache EXCEPT ![req.sia] = EntryFor(req)]
-          /\ kinfo' = [asked |-> TRUE, exp |-> cache[req.sia].valid /\ cache[req.sia].expired,
-                       fetch |-> Refetch(req), key |-> SrvKey(req)]
-          /\ UNCHANGED <<nsent, hist>>
+          /\ kinfo' = [asked |-> TRUE, exp |-> Expired(cache[req.sia], req.at),
+                       fetch |-> Refetch(req), key |-> SrvKey(req), cst |-> CacheClass(req)]
+          /\ UNCHANGED <<nsent, hist, clock>>
           /\ IF MacOK(req, SrvKey(req)) \/ Fault = "srvIgnoreMac"
              THEN authd' = TRUE /\ pc' = "serve" /\ UNCHANGED <<mode, cauth, req, act, out, rm, resp, cres>>
              ELSE act' = "Drop" /\ out' = << >> /\ pc' = "done" /\ UNCHANGED <<mode, cauth, req, authd, rm, resp, cres>>
@@ -422,6 +464,7 @@ VerifyResponse ==
 
 \* ---------------------------------------- the same listener, the next datagram
 Observation == [sia |-> req.sia, sh |-> req.sh, dh |-> req.dh, ak |-> req.ak,
+                at |-> req.at, ep |-> EpochOf(req.at), pos |-> PosOf(req.at), cst |-> kinfo.cst,
                 expected |-> ExpectedReq(req), macok |-> MacOK(req, ReqKey(req)),
                 asked |-> kinfo.asked, exp |-> kinfo.exp, fetch |-> kinfo.fetch,
                 wact |-> act, wauthd |-> authd, wcres |-> cres]
@@ -430,16 +473,19 @@ NextDatagram ==
   /\ nsent' = nsent + 1 /\ hist' = Append(hist, Observation)
   /\ pc' = "l4" /\ req' = Blank /\ authd' = FALSE /\ act' = "-" /\ out' = << >>
   /\ rm' = "-" /\ resp' = Blank /\ cres' = "-" /\ kinfo' = NoKInfo
-  /\ UNCHANGED <<mode, cauth, cache>>
-\* the epoch of a cached key runs out (between two datagrams)
-Expire ==
-  /\ pc = "l4" /\ nsent > 0
-  /\ \E ia \in AllCIAs : /\ cache[ia].valid /\ ~cache[ia].expired
-                          /\ cache' = [cache EXCEPT ![ia].expired = TRUE]
-  /\ UNCHANGED <<mode, cauth, pc, req, authd, act, out, rm, resp, cres, kinfo, nsent, hist>>
+  /\ UNCHANGED <<mode, cauth, cache, clock>>
+\* time passes (between two datagrams), one instant at a time: the next datagram
+\* arrives in the same epoch, at its last instant, at the first instant of the
+\* next epoch, later in it, or epochs later.  (All epochs are alike: the first
+\* datagram arrives in epoch 0.)
+Advance ==
+  /\ pc = "l4" /\ KeyRegime = "drkey" /\ clock < MaxClock
+  /\ nsent = 0 => clock + 1 < EpochLen
+  /\ clock' = clock + 1
+  /\ UNCHANGED <<mode, cauth, pc, req, authd, act, out, rm, resp, cres, cache, kinfo, nsent, hist>>
 
 Next ==
-  \/ NextDatagram \/ Expire
+  \/ NextDatagram \/ Advance
   \/ ChooseL4 \/ ChoosePort \/ ChooseAddr \/ ChoosePath \/ ChooseAuth
   \/ Receive \/ EchoReply \/ TracerouteReply \/ Forward \/ Verify \/ ServeNtp
   \/ Relay \/ VerifyResponse
